@@ -15,6 +15,10 @@ const (
 	Newline
 	IONum // digits glued to a following redirection operator
 	Arith // a whole (( ... )) command
+	// SubOpen is "$(" and BQ a backquote, each rendered as a token of its own: a
+	// word may be "$(" compound_list ")" or BQ compound_list BQ
+	SubOpen
+	BQ
 )
 
 type Tok struct {
@@ -41,8 +45,68 @@ func (v Verdict) String() string {
 type fail struct{ v Verdict }
 
 type rec struct {
-	t []Tok
-	i int
+	t   []Tok
+	i   int
+	ctx []byte // open constructs, innermost last: '(' subshell, '$' "$(", '`' backquote
+}
+
+func (r *rec) inBQ() bool {
+	for _, c := range r.ctx {
+		if c == '`' {
+			return true
+		}
+	}
+	return false
+}
+
+// isWord: a word starts here.  A backquote directly inside a backquote
+// substitution is its closer; one deeper inside is not judged.
+func (r *rec) isWord() bool {
+	t := r.peek()
+	switch t.K {
+	case Word, SubOpen:
+		return true
+	case BQ:
+		if !r.inBQ() {
+			return true
+		}
+		// the backquoted text ends at the first backquote: inside an embedded "$("
+		// the result is undefined (XCU 2.6.3), inside a subshell the text ends with
+		// the subshell still open
+		for k := len(r.ctx) - 1; r.ctx[k] != '`'; k-- {
+			if r.ctx[k] == '$' {
+				panic(fail{Unsure})
+			}
+		}
+		if r.ctx[len(r.ctx)-1] != '`' {
+			r.bad()
+		}
+	}
+	return false
+}
+
+func (r *rec) isBQ() bool { return r.peek().K == BQ }
+
+// word consumes one word; the caller has checked isWord.
+func (r *rec) word() {
+	t := r.peek()
+	r.i++
+	switch t.K {
+	case SubOpen:
+		r.ctx = append(r.ctx, '$')
+		r.compoundList(func() bool { return r.isOp(")") })
+		r.expectOp(")")
+		r.ctx = r.ctx[:len(r.ctx)-1]
+	case BQ:
+		r.ctx = append(r.ctx, '`')
+		r.compoundList(r.isBQ)
+		r.need()
+		if !r.isBQ() {
+			r.bad()
+		}
+		r.i++
+		r.ctx = r.ctx[:len(r.ctx)-1]
+	}
 }
 
 var reserved = map[string]bool{"!": true, "{": true, "}": true, "for": true, "case": true, "esac": true, "in": true, "if": true, "elif": true, "then": true, "else": true, "fi": true, "while": true, "until": true, "do": true, "done": true}
@@ -152,10 +216,11 @@ func (r *rec) redirect() bool {
 	if j >= len(r.t) {
 		panic(fail{Incomplete})
 	}
-	if r.t[j].K != Word {
+	r.i = j
+	if !r.isWord() {
 		r.bad()
 	}
-	r.i = j + 1
+	r.word()
 	return true
 }
 
@@ -164,13 +229,18 @@ func (r *rec) command() {
 	t := r.peek()
 	switch {
 	case t.K == Arith:
+		if len(r.ctx) > 0 {
+			panic(fail{Unsure}) // go.sh recognises "((" only outside parentheses (known finding)
+		}
 		r.i++
 		r.redirects(true)
 		return
 	case t.K == Op && t.Text == "(":
 		r.i++
+		r.ctx = append(r.ctx, '(')
 		r.compoundList(func() bool { return r.isOp(")") })
 		r.expectOp(")")
+		r.ctx = r.ctx[:len(r.ctx)-1]
 		r.redirects(true)
 		return
 	case t.K == Word && t.Plain && reserved[t.Text]:
@@ -219,8 +289,8 @@ func (r *rec) command() {
 				r.need()
 				if r.isRes("in") {
 					r.i++
-					for r.peek().K == Word {
-						r.i++
+					for r.isWord() {
+						r.word()
 					}
 					r.need()
 					switch {
@@ -240,10 +310,10 @@ func (r *rec) command() {
 		case "case":
 			r.i++
 			r.need()
-			if r.peek().K != Word {
+			if !r.isWord() {
 				r.bad()
 			}
-			r.i++
+			r.word()
 			r.linebreak()
 			r.expectRes("in")
 			r.linebreak()
@@ -256,17 +326,17 @@ func (r *rec) command() {
 					r.i++
 					r.need()
 				}
-				if r.peek().K != Word {
+				if !r.isWord() {
 					r.bad()
 				}
-				r.i++
+				r.word()
 				for r.isOp("|") {
 					r.i++
 					r.need()
-					if r.peek().K != Word {
+					if !r.isWord() {
 						r.bad()
 					}
-					r.i++
+					r.word()
 				}
 				r.expectOp(")")
 				r.linebreak()
@@ -319,15 +389,15 @@ func (r *rec) command() {
 		}
 		break
 	}
-	if r.peek().K == Word {
-		r.i++
+	if r.isWord() {
+		r.word()
 		n++
 		for {
 			if r.redirect() {
 				continue
 			}
-			if r.peek().K == Word {
-				r.i++
+			if r.isWord() {
+				r.word()
 				continue
 			}
 			break
